@@ -68,6 +68,7 @@ const (
 	RetKind     // if H.Ret(r) { H.B(r,p) return 1 + VA<r> }   fault point in a nested return expression
 	RetTopKind  // H.B(r,p) return 1 + VA<r>                    fault point in the top-level return expression
 	RetElse     // if VF<r> { H.Y } else { if H.Ret(r) { return V } }   return from an else block
+	RetReq      // if H.Ret(r) { return Req.ID }                 value derived from the request's own data
 	numRetKinds
 )
 
@@ -256,6 +257,8 @@ func (r *RuleDef) Render() string {
 		fmt.Fprintf(&b, "for w = 0; w < 2; w += 1 {\nif H.Ret(%d) {\nreturn %d\n}\n}\n", id, r.RetVal())
 	case RetKind:
 		fmt.Fprintf(&b, "if H.Ret(%d) {\nH.B(%d,%d)\nreturn %d + VA%d - 1\n}\n", id, id, rp, r.RetVal(), id)
+	case RetReq:
+		fmt.Fprintf(&b, "if H.Ret(%d) {\nreturn Req.ID\n}\n", id)
 	case RetElse:
 		fmt.Fprintf(&b, "if VF%d {\nH.Y(%d,%d)\n} else {\nif H.Ret(%d) {\nreturn %d\n}\n}\n", id, id, yk, id, r.RetVal())
 	}
